@@ -219,3 +219,156 @@ def _mk(level: str):
 
 for _l in LEVELS:
     _mk(_l)
+
+
+# --------------------------------------------------------------------------- field-level validators
+@obligation(prop="C11", sites=("returns", "raises"), budget={"quick": 120, "thorough": 300},
+            encodes=["cincoconfig.support.validator", "cincoconfig.core.Field.validate", "cincoconfig.core.Config.load_tree"],
+            what="k <= 3 validators registered on ONE field (the first through the constructor or the decorator, the "
+                 "others through the decorator; field at the root or nested; symbolic which one rejects): a load or "
+                 "assignment returns iff none of them rejects, and every registered validator up to the rejecting "
+                 "one was run against the loaded value, in registration order")
+def field_validators_all_run(nested: bool, k: int, via_ctor: bool, fail: int, route: int, x: int) -> bool:
+    """
+    pre: 0 <= k <= 3 and -1 <= fail <= 2 and 0 <= route <= 2 and 0 <= x <= 9
+    post: _
+    """
+    if fail >= k:
+        skip("the rejecting validator must be a registered one")
+    if via_ctor and k == 0:
+        skip("nothing to pass to the constructor")
+    log = []
+
+    def make(i):
+        def check(cfg, value):
+            log.append((i, value))
+            if i == fail:
+                raise ValueError("validator %d rejects" % i)
+            return value
+        return check
+
+    schema = Schema()
+    owner = schema.sec if nested else schema
+    start = 0
+    if via_ctor:
+        owner.n = IntField(default=0, validator=make(0))
+        start = 1
+    else:
+        owner.n = IntField(default=0)
+    for i in range(start, k):
+        validator(owner._fields["n"])(make(i))
+    cfg = schema()
+    del log[:]                       # (defaults are not validated; be independent of that)
+    tree = {"sec": {"n": x}} if nested else {"n": x}
+    raised = None
+    try:
+        if route == 0:
+            cfg.load_tree(tree)
+        elif route == 1:
+            cfg["sec.n" if nested else "n"] = x
+        else:
+            schema(**tree)
+    except Exception as exc:  # noqa: BLE001
+        raised = exc
+    ran = [i for i, _ in log]
+    if fail < 0:
+        hold("returns", raised is None, lambda: "no validator rejects but the operation raised %r" % (raised,))
+        # (a load validates each value when it is stored and once more in its final validation pass)
+        passes = len(ran) // k if k else 0
+        hold("returns", (k == 0 and not ran) or (passes >= 1 and ran == list(range(k)) * passes),
+             lambda: "registered validators 0..%d, run: %r" % (k - 1, ran))
+    else:
+        hold("raises", raised is not None,
+             lambda: "validator %d of %d rejects the value but the operation returned (validators run: %r)" % (fail, k, ran))
+        hold("raises", isinstance(raised, ValueError) and ran == list(range(fail + 1)),
+             lambda: "validators run %r, expected 0..%d; raised %r" % (ran, fail, raised))
+    hold("returns" if fail < 0 else "raises", all(v == x for _, v in log), "a validator saw another value than the loaded one")
+    return True
+
+
+# --------------------------------------------------------------------------- states reached by direct edits
+@obligation(prop="C11", sites=("raises", "returns"), budget={"quick": 120, "thorough": 300},
+            encodes=["cincoconfig.core.Schema._validate", "cincoconfig.core.Schema._validate_field",
+                     "cincoconfig.fields.list_field.ListProxy._validate"],
+            what="prior states reached by DIRECT edits rather than by loads: a sub-configuration replaced by a "
+                 "configuration object whose required field is unset, a loaded sub-configuration edited so that its "
+                 "schema validator fails, an invalid configuration object offered to a list a second time after "
+                 "having been refused; then load_tree({}) / validate() / collecting validate(): returns iff every "
+                 "required field is set and every validator passes (oracle evaluated on the final values)")
+def revalidation_after_edits(case: int, mode: int, fix: bool) -> bool:
+    """
+    pre: 0 <= case <= 3 and 0 <= mode <= 2
+    post: _
+    """
+    schema = Schema()
+    schema.keep = IntField(default=1)
+    schema.db.host = StringField(required=True)
+    schema.db.port = IntField(default=5)
+    item = Schema()
+    item.name = StringField(required=True)
+    item.n = IntField(default=0)
+    schema.items = ListField(item, default=lambda: [])
+
+    @validator(schema.db)
+    def db_validator(cfg):
+        if cfg.port is not None and cfg.port > 100:
+            raise ValueError("port too large")
+
+    @validator(item)
+    def item_validator(cfg):
+        if cfg.n is not None and cfg.n > 100:
+            raise ValueError("n too large")
+
+    cfg = schema()
+    cfg.load_tree({"db": {"host": "h"}, "items": [{"name": "a"}]})
+    second_insert_refused = True
+    if case == 0:
+        cfg.db = schema.db()                 # a configuration object of the right schema, required host unset
+        if fix:
+            cfg.db.host = "again"
+    elif case == 1:
+        cfg.db.port = 101 if not fix else 99  # the sub-configuration's own validator now fails
+    elif case == 2:
+        from cincoconfig import reset_value
+        reset_value(cfg, "db.host")           # back to its (absent) default: the required field is unset again
+        if fix:
+            cfg.db.host = "h2"
+    else:
+        bad = item()                          # required name unset
+        if fix:
+            bad.name = "b"
+        for attempt in (0, 1):
+            try:
+                cfg.items.append(bad)
+                if attempt == 1:
+                    second_insert_refused = False
+            except ValueError:
+                pass
+        if fix:
+            second_insert_refused = True      # (a valid object may of course be inserted, twice)
+    hold("raises" if not fix else "returns", second_insert_refused,
+         "a configuration object that was refused is accepted when it is inserted again")
+    invalid = not fix and case in (0, 1, 2)
+    raised, errors = None, None
+    try:
+        if mode == 0:
+            cfg.load_tree({})
+        elif mode == 1:
+            cfg.validate()
+        else:
+            errors = cfg.validate(collect_errors=True)
+    except Exception as exc:  # noqa: BLE001
+        raised = exc
+    if mode == 2:
+        hold("raises" if invalid else "returns", raised is None and bool(errors) == invalid,
+             lambda: "collecting mode returned %r (raised %r) for a configuration that is %s" % (
+                 errors, raised, "invalid" if invalid else "valid"))
+    elif invalid:
+        hold("raises", isinstance(raised, ValidationError),
+             lambda: "returned normally (raised %r) although a required field is unset or a validator fails" % (raised,))
+    else:
+        hold("returns", raised is None, lambda: "valid configuration rejected: %r" % (raised,))
+    # whatever got into the list satisfies the item rule
+    for it in cfg.items:
+        hold("returns" if not invalid else "raises", it.name not in (None, ""), "a list item without its required field is in the list")
+    return True
